@@ -1542,7 +1542,7 @@ def run(ctx):
                  sample={"set": case["set"], "rw": case["rw"], "fresh": case["fresh"], "queries": len(case["queries"])})
     # seqids holding ',', '-', ' ', '%' (and twins without), every string form against the tuple form; featuretype
     # iterables naming a type several times
-    for _ in range(ctx.budget(100, 16 * 220)):
+    for _ in range(ctx.budget(72, 16 * 220)):
         case = G.gen_oddseq(rng)
         useful = execute(ctx, case)
         ctx.case(("oddseq", case["seed"], repr(case["seqids"]), repr(case["queries"])), bool(useful),
